@@ -531,6 +531,12 @@ inline Parsed parseResponse(std::string_view s, std::string_view requestMethod, 
     if (code == 101) return stop(Tail::Unsupported, "101 switching protocols");
     if (code < 200)
     {
+      // RFC 9110 §8.6 / RFC 9112 §6.1: a server MUST NOT send Content-Length or Transfer-Encoding in a
+      // 1xx response. Such a stream is not a valid message stream; skipping the interim response
+      // (RFC 9112 §6.3 rule 1) and rejecting it (the fields may be invalid/conflicting) are both
+      // acceptable: no verdict, whatever the fields contain.
+      if (findField(hb.fields, "content-length") || findField(hb.fields, "transfer-encoding"))
+        return stop(Tail::Unsupported, "framing field in a 1xx response (sender MUST NOT)");
       p = he + 4; // interim response: no body, skipped
       continue;
     }
@@ -547,9 +553,19 @@ inline Parsed parseResponse(std::string_view s, std::string_view requestMethod, 
     const Field *cl = findField(hb.fields, "content-length");
     if (noBody)
     {
+      // RFC 9112 §6.3 rule 1: HEAD / 204 / 304 end at the empty line whatever the fields say. That is
+      // only *demanded* for streams a conforming server may send: 204 MUST NOT carry either framing
+      // field (RFC 9110 §8.6, RFC 9112 §6.1) => no verdict; HEAD / 304 may carry the fields the GET
+      // response would have, but only well-formed ones (anything invalid/conflicting => no verdict).
       if (dup) return stop(Tail::Unsupported, "duplicate field names");
+      if (code == 204 && (te || cl)) return stop(Tail::Unsupported, "framing field in a 204 response (sender MUST NOT)");
       if (te && cl) return stop(Tail::Unsupported, "both TE and CL");
       if (cl && contentLengthValue(cl->value).kind != LenKind::Length) return stop(Tail::Unsupported, "odd Content-Length on a bodyless response");
+      if (te)
+      {
+        auto toks = teTokens(te->value);
+        if (toks.size() != 1 || toks[0] != "chunked") return stop(Tail::Unsupported, "odd Transfer-Encoding on a bodyless response");
+      }
     }
     else
     {
